@@ -524,7 +524,7 @@ func (p c04) traced(c *core.Ctx) {
 		for i := range sc.Nodes {
 			name := sc.Nodes[i].DisplayName()
 			var err error
-			r.Guard(func() { _, err = r.App.GetComponentByName(name) })
+			r.Guard(func() { _, err = r.UserLookup(name) })
 			if r.Panic != nil || r.Diverge != nil {
 				c.Fail("", "lookup after the start: "+r.OutcomeDetail(), failDetail(sc, r, nil))
 				return
@@ -560,7 +560,7 @@ func (p c04) traced(c *core.Ctx) {
 	c.Count("recreated_after_transient_failure_checked", 1)
 	if len(ps) > 0 {
 		class := ""
-		if plan != nil && earlyRefOfFailedAttemptEscaped(r.Tracer.Events()) {
+		if plan != nil && earlyRefOfFailedAttemptEscaped(r.Tracer.Events(), r.Outcome() == "error") {
 			class = "F-C04-early-wrapper-of-failed-attempt"
 		}
 		c.Fail(class, "after a creation that failed once and was re-attempted successfully: "+ps[0], failDetail(sc, r, map[string]any{"problems": ps, "substitution_plan": plan}))
@@ -569,18 +569,30 @@ func (p c04) traced(c *core.Ctx) {
 
 // earlyRefOfFailedAttemptEscaped: input/history classifier for the known finding: some creation
 // handed out an early reference (early-fn returned one) and then failed, while another creation that
-// started inside it completed successfully (a dependent that may have captured the early reference).
-func earlyRefOfFailedAttemptEscaped(ev []mon.TraceEv) bool {
+// started inside it completed successfully (a dependent that may have captured the early reference) -
+// and the failure was delivered to user code: it happened inside a lookup issued by user code (marked
+// in the trace), or runFailed says that App.Run itself returned the error. A failure that the
+// container swallowed on its own is not in the class.
+func earlyRefOfFailedAttemptEscaped(ev []mon.TraceEv, runFailed ...bool) bool {
 	type frame struct {
 		name      string
 		early     bool
 		completed bool // some nested creation completed successfully
+		inUser    bool
 	}
+	delivered := len(runFailed) > 0 && runFailed[0]
 	var stack []*frame
+	userDepth := 0
 	for _, e := range ev {
 		switch {
+		case e.Op == "user-lookup":
+			if e.Phase == "call" {
+				userDepth++
+			} else if userDepth > 0 {
+				userDepth--
+			}
 		case e.Op == "create-fn" && e.Phase == "call":
-			stack = append(stack, &frame{name: e.Name})
+			stack = append(stack, &frame{name: e.Name, inUser: userDepth > 0})
 		case e.Op == "early-fn" && e.Phase == "ret" && e.Err == "":
 			for _, f := range stack {
 				if f.name == e.Name {
@@ -594,7 +606,7 @@ func earlyRefOfFailedAttemptEscaped(ev []mon.TraceEv) bool {
 			top := stack[len(stack)-1]
 			stack = stack[:len(stack)-1]
 			if e.Err != "" {
-				if top.early && top.completed {
+				if top.early && top.completed && (top.inUser || delivered) {
 					return true
 				}
 			} else {
